@@ -11,7 +11,20 @@ pub struct Srv { pub child: Child, pub port: u16, pub dir: std::path::PathBuf }
 pub struct SrvOpts { pub password: Option<String>, pub aof: bool, pub dir: Option<std::path::PathBuf>, pub keep_dir: bool }
 impl Default for SrvOpts { fn default() -> Self { SrvOpts { password: None, aof: false, dir: None, keep_dir: false } } }
 
+/// A port that is free right now, taken from BELOW the kernel's ephemeral range (32768..): a port
+/// released here is then never handed to another process's bind(0) or outgoing connection, so servers
+/// of concurrently running checks cannot end up sharing a port (a lost race among this harness's own
+/// shards is caught by the child's failing bind, see the ready file in Srv::start).
 fn free_port() -> u16 {
+    static N: std::sync::atomic::AtomicU64 = std::sync::atomic::AtomicU64::new(0);
+    let t = std::time::SystemTime::now().duration_since(std::time::UNIX_EPOCH).map(|d| d.as_nanos() as u64).unwrap_or(0);
+    let mut x = t ^ ((std::process::id() as u64) << 32) ^ N.fetch_add(1, std::sync::atomic::Ordering::SeqCst).wrapping_mul(0x9E3779B97F4A7C15);
+    for _ in 0..10000 {
+        x = x.wrapping_add(0x9E3779B97F4A7C15);
+        let mut z = x; z = (z ^ (z >> 30)).wrapping_mul(0xBF58476D1CE4E5B9); z = (z ^ (z >> 27)).wrapping_mul(0x94D049BB133111EB); z ^= z >> 31;
+        let port = 10000 + (z % 22000) as u16;
+        if std::net::TcpListener::bind(("127.0.0.1", port)).is_ok() { return port; }
+    }
     let l = std::net::TcpListener::bind("127.0.0.1:0").unwrap();
     l.local_addr().unwrap().port()
 }
@@ -34,11 +47,28 @@ impl Srv {
             if let Some(p) = &o.password { c.arg("--pass").arg(p); }
             if o.aof { c.arg("--aof"); }
             c.current_dir(&dir).stdin(Stdio::null()).stdout(Stdio::null()).stderr(Stdio::null());
+            // the child creates <dir>/.ready once ITS listener is bound: a successful connect alone could
+            // reach the server of a parallel harness process that was handed the same "free" port
+            let ready = dir.join(".ready");
+            let _ = std::fs::remove_file(&ready);
             let mut child = c.spawn().expect("spawn server");
             let t0 = Instant::now();
             loop {
                 if let Ok(Some(_)) = child.try_wait() { break; }
-                if std::net::TcpStream::connect(("127.0.0.1", port)).is_ok() { return Srv { child, port, dir }; }
+                if ready.exists() && std::net::TcpStream::connect(("127.0.0.1", port)).is_ok() {
+                    // port race between harness processes: make sure it is OUR child that listens
+                    // (the VERIF PID hook answers the server's process id)
+                    let mut mine = false;
+                    if let Some(mut cl) = Client::connect(port) {
+                        let mut w = vec![];
+                        if let Some(p) = &o.password { V::cmd(&[b"AUTH", p.as_bytes()]).wire(&mut w); cl.send(&w); let _ = cl.read(3000); w.clear(); }
+                        V::cmd(&[b"VERIF", b"PID"]).wire(&mut w); cl.send(&w);
+                        if let Rd::Val(V::Int(pid)) = cl.read(3000) { mine = pid as u32 == child.id(); }
+                    }
+                    if mine { return Srv { child, port, dir }; }
+                    let _ = child.kill(); let _ = child.wait(); let _ = std::fs::remove_dir_all(&dir);
+                    break;
+                }
                 if t0.elapsed() > Duration::from_secs(8) { let _ = child.kill(); let _ = child.wait(); break; }
                 std::thread::sleep(Duration::from_millis(5));
             }
@@ -64,7 +94,10 @@ pub fn serve(args: &[String]) {
     if args.iter().any(|a| a == "--aof") { cfg.aof.enabled = true; cfg.aof.dir = dir.clone(); }
     let _ = std::panic::take_hook();
     match ferrous::Server::from_config(cfg) {
-        Ok(mut s) => { let r = s.run(); eprintln!("server ended: {:?}", r.is_ok()); }
+        Ok(mut s) => {
+            let _ = std::fs::write(std::path::Path::new(&dir).join(".ready"), b"1");
+            let r = s.run(); eprintln!("server ended: {:?}", r.is_ok());
+        }
         Err(e) => { eprintln!("server failed to start: {}", e); std::process::exit(3); }
     }
 }
@@ -87,6 +120,12 @@ pub fn canon_reply(name: &[u8], v: V) -> V {
     let v = canon(v);
     match name {
         b"TTL" | b"PTTL" => match v { V::Int(n) if n > 0 => V::Int(1), x => x },
+        b"VERIF" => match v {
+            // INDEX rows: remaining times by sign only
+            V::Array(rows) => V::Array(rows.into_iter().map(|r| match r {
+                V::Array(mut f) if f.len() == 4 => { for k in 1..3 { if let V::Int(n) = f[k] { if n > 0 { f[k] = V::Int(1); } } } V::Array(f) }
+                x => x }).collect()),
+            x => x },
         b"SMEMBERS" | b"SUNION" | b"SINTER" | b"SDIFF" | b"KEYS" | b"HKEYS" | b"HVALS" | b"SPOP" | b"SRANDMEMBER" =>
             match v { V::Array(mut l) => { if l.iter().all(|x| matches!(x, V::Bulk(_))) { sort_bulks(&mut l); } V::Array(l) } x => x },
         b"HGETALL" => match v {
@@ -96,24 +135,69 @@ pub fn canon_reply(name: &[u8], v: V) -> V {
                 V::Array(pairs.into_iter().flat_map(|(k, v)| vec![k, v]).collect())
             }
             x => x },
-        _ => v,
+        // SSCAN fast path iterates the HashSet: sort the members (the slow path is sorted already)
+        b"SSCAN" => match v {
+            V::Array(mut l) if l.len() == 2 => { if let V::Array(m) = &mut l[1] { if m.iter().all(|x| matches!(x, V::Bulk(_))) { sort_bulks(m); } } V::Array(l) }
+            x => x },
+        _ => crate::c15::canon_streams(name, v),
+    }
+}
+/// canonical order of pushed frames (= Model/RunSrv.v canon_pushes): each maximal run of consecutive
+/// pmessage frames with the same channel and payload is sorted by pattern (HashMap order of the
+/// pattern map is unobservable)
+pub fn canon_pushes(mut l: Vec<V>) -> Vec<V> {
+    fn key(v: &V) -> Option<(Vec<u8>, Vec<u8>, Vec<u8>)> {
+        if let V::Array(a) = v { if a.len() == 4 { if let (V::Bulk(k), V::Bulk(p), V::Bulk(ch), V::Bulk(m)) = (&a[0], &a[1], &a[2], &a[3]) {
+            if k == b"pmessage" { return Some((p.clone(), ch.clone(), m.clone())); } } } }
+        None
+    }
+    let mut i = 0;
+    while i < l.len() {
+        if let Some((_, ch, m)) = key(&l[i]) {
+            let mut j = i + 1;
+            while j < l.len() { match key(&l[j]) { Some((_, ch2, m2)) if ch2 == ch && m2 == m => j += 1, _ => break } }
+            l[i..j].sort_by(|a, b| key(a).unwrap().0.cmp(&key(b).unwrap().0));
+            i = j;
+        } else { i += 1; }
+    }
+    l
+}
+/// (P)UNSUBSCRIBE without arguments confirms the connection's names in HashSet order: sort the names
+/// of the consecutive confirmation frames of that kind, the counts stay by position
+fn canon_unsub_all(kind: &[u8], l: &mut Vec<V>) {
+    let is = |v: &V| matches!(v, V::Array(a) if a.len() == 3 && matches!(&a[0], V::Bulk(k) if k == kind) && matches!(&a[1], V::Bulk(_)));
+    let mut i = 0;
+    while i < l.len() {
+        if is(&l[i]) {
+            let mut j = i; while j < l.len() && is(&l[j]) { j += 1; }
+            let mut names: Vec<Vec<u8>> = l[i..j].iter().map(|v| if let V::Array(a) = v { if let V::Bulk(n) = &a[1] { n.clone() } else { vec![] } } else { vec![] }).collect();
+            names.sort();
+            for (k, n) in names.into_iter().enumerate() { if let V::Array(a) = &mut l[i + k] { a[1] = V::Bulk(n); } }
+            i = j;
+        } else { i += 1; }
     }
 }
 pub fn req_name(req: &V) -> Vec<u8> {
     match req { V::Array(l) => match l.first() { Some(V::Bulk(b)) => b.to_ascii_uppercase(), _ => vec![] }, _ => vec![] }
 }
-const RANDOM_CMDS: &[&[u8]] = &[b"RANDOMKEY", b"SPOP", b"SRANDMEMBER"];
+const RANDOM_CMDS: &[&[u8]] = &[b"RANDOMKEY", b"SPOP", b"SRANDMEMBER", b"XADD", b"SCRIPT"];
 
-pub struct Runner { pub srv: Srv, pub conns: HashMap<i128, Client>, pub t0: Instant, pub logical: i128, pub drift_bad: bool }
+/// bookkeeping of the blocking-pop ops (BCONN/BSEND/BRECV/BCLOSE): server-side connection ids,
+/// requests written minus frames received per connection, frames received but not yet reported
+#[derive(Default)]
+pub struct Blk { pub ids: HashMap<i64, i128>, pub owed: HashMap<i128, i64>, pub inbox: HashMap<i128, Vec<V>>, pub eof: std::collections::HashSet<i128>, pub broken: std::collections::HashSet<i128>, pub drift: bool, pub finite: HashMap<i128, bool>, pub ctl_dead: bool }
+
+pub struct Runner { pub srv: Srv, pub conns: HashMap<i128, Client>, pub t0: Instant, pub logical: i128, pub drift_bad: bool, pub queues: HashMap<i128, Vec<Vec<u8>>>, pub password: Option<String>, pub ctl_authed: bool, pub blk: Blk, pub quit_sent: std::collections::HashSet<i128> }
 
 impl Runner {
-    pub fn new(o: &SrvOpts) -> Runner { Runner { srv: Srv::start(o), conns: HashMap::new(), t0: Instant::now(), logical: 0, drift_bad: false } }
+    pub fn new(o: &SrvOpts) -> Runner { Runner { srv: Srv::start(o), conns: HashMap::new(), t0: Instant::now(), logical: 0, drift_bad: false, queues: HashMap::new(), password: o.password.clone(), ctl_authed: false, blk: Blk::default(), quit_sent: Default::default() } }
     /// one op; returns (possibly augmented op, output)
     pub fn op(&mut self, op: &[Tok]) -> (Vec<Tok>, Vec<Tok>) {
         let name = tok_bytes(&op[0]).to_vec();
         match &name[..] {
             b"CONN" => { let c = tok_int(&op[1]); match Client::connect(self.srv.port) { Some(cl) => { self.conns.insert(c, cl); (op.to_vec(), vec![i(1)]) } None => (op.to_vec(), vec![i(0)]) } }
             b"CLOSE" => { let c = tok_int(&op[1]); self.conns.remove(&c); std::thread::sleep(Duration::from_millis(15)); (op.to_vec(), vec![]) }
+            b"NOTE" => (op.to_vec(), vec![]),      // annotation for the judge (C12 twin pairs); no effect
             b"SLEEP" => {
                 self.logical += tok_int(&op[1]);
                 let target = Duration::from_millis(self.logical as u64);
@@ -128,15 +212,28 @@ impl Runner {
                 // drift check: real time must stay within 80 ms of the logical clock
                 let el = self.t0.elapsed().as_millis() as i128;
                 if el - self.logical > 80 { self.drift_bad = true; }
+                if !self.blk.owed.is_empty() { self.sync_clock(); }
                 let mut wire = vec![]; req.wire(&mut wire);
                 let nm = req_name(&req);
-                let cl = match self.conns.get_mut(&c) { Some(x) => x, None => return (op.to_vec(), vec![b("NOCONN")]) };
+                let cl = match self.conns.get_mut(&c) { Some(x) => x, None => return (op.to_vec(), vec![b("CLOSED")]) };
                 if !cl.send(&wire) { return (op[..pos].to_vec(), vec![b("CLOSED")]); }
                 let mut newop = op[..pos].to_vec();
                 newop[2] = Tok::I(self.logical);
-                match cl.read(3000) {
+                match cl.read(8000) {
                     Rd::Val(v) => {
-                        if RANDOM_CMDS.contains(&&nm[..]) { v.enc(&mut newop); }
+                        if RANDOM_CMDS.contains(&&nm[..]) || nm == b"ZSCAN" { v.enc(&mut newop); }
+                        // replies inside an EXEC array are canonicalised by the queued command's name
+                        let v = if nm == b"EXEC" {
+                            let q = self.queues.remove(&c).unwrap_or_default();
+                            match v { V::Array(l) if l.len() == q.len() => V::Array(l.into_iter().zip(q.iter()).map(|(x, n)| canon_reply(n, x)).collect()), x => x }
+                        } else {
+                            if matches!(&v, V::Simple(s) if s == b"QUEUED") { self.queues.entry(c).or_default().push(nm.clone()); }
+                            if (nm == b"MULTI" || nm == b"DISCARD") && !matches!(&v, V::Error(_)) { self.queues.remove(&c); }   // a refused nested MULTI keeps the queue
+                            v
+                        };
+                        // blocking-pop histories: let the event loop finish what this command caused (wake-ups, reads
+                        // of connections it unblocked) before the next operation is written
+                        if !self.blk.owed.is_empty() { let _ = self.settle(); self.drain_all(); self.drift_check(); }
                         let mut out = vec![]; canon_reply(&nm, v).enc(&mut out); (newop, out)
                     }
                     Rd::Timeout => (newop, vec![b("TIMEOUT")]),
@@ -144,22 +241,411 @@ impl Runner {
                     Rd::Bad => (newop, vec![b("BADREPLY")]),
                 }
             }
+            b"SWEEP" | b"SWEEP_GATE" | b"SWEEP_RELEASE" => {
+                // sweeper schedule control through the VERIF hook command on a private control connection
+                let mut newop = vec![op[0].clone(), Tok::I(self.logical)];
+                newop.extend_from_slice(&op[op.len().min(2)..]);
+                if !self.conns.contains_key(&-1) { if let Some(cl) = Client::connect(self.srv.port) { self.conns.insert(-1, cl); } }
+                let pw = self.password.clone();
+                let cl = self.conns.get_mut(&-1).unwrap();
+                let mut ask = |cl: &mut Client, args: &[&[u8]]| -> i64 {
+                    let mut w = vec![]; V::cmd(args).wire(&mut w); cl.send(&w);
+                    match cl.read(2000) { Rd::Val(V::Int(n)) => n, Rd::Val(V::Simple(_)) => 0, _ => -1 }
+                };
+                if let Some(p) = &pw { if !self.ctl_authed { ask(cl, &[b"AUTH", p.as_bytes()]); self.ctl_authed = true; } }
+                let passes0 = ask(cl, &[b"VERIF", b"SWEEP", b"PASSES"]);
+                let wait = |cl: &mut Client, ask: &mut dyn FnMut(&mut Client, &[&[u8]]) -> i64, what: &[u8], target: i64| -> bool {
+                    let t0 = Instant::now();
+                    while t0.elapsed() < Duration::from_millis(8000) {
+                        if ask(cl, &[b"VERIF", b"SWEEP", what]) >= target { return true; }
+                        std::thread::sleep(Duration::from_millis(5));
+                    }
+                    false
+                };
+                // a pass must start at a known model instant: wait until the sweeper is parked at its
+                // wait point, move the logical clock to the next 300 ms grid point not before now, sleep
+                // until then, and only then let it run (it starts within a few ms)
+                let mut ok = true;
+                if &name[..] != b"SWEEP_RELEASE" {
+                    ok = wait(cl, &mut ask, b"WAITING", 1);
+                    let el = self.t0.elapsed().as_millis() as i128;
+                    let grid = ((el + 299) / 300) * 300;
+                    if grid > self.logical { self.logical = grid; }
+                    let target = Duration::from_millis(self.logical as u64);
+                    let now = self.t0.elapsed();
+                    if now < target { std::thread::sleep(target - now); }
+                    newop[1] = Tok::I(self.logical);
+                }
+                let ok2 = match &name[..] {
+                    b"SWEEP" => { ask(cl, &[b"VERIF", b"SWEEP", b"STEP"]); wait(cl, &mut ask, b"PASSES", passes0 + 1) }
+                    b"SWEEP_GATE" => { ask(cl, &[b"VERIF", b"SWEEP", b"GATE"]); ask(cl, &[b"VERIF", b"SWEEP", b"STEP"]); wait(cl, &mut ask, b"ATGATE", 1) }
+                    _ => { ask(cl, &[b"VERIF", b"SWEEP", b"RELEASE"]); wait(cl, &mut ask, b"PASSES", passes0 + 1) }
+                };
+                let ok = ok && ok2;
+                let el = self.t0.elapsed().as_millis() as i128;
+                if el - self.logical > 80 { self.drift_bad = true; }
+                (newop, if ok { vec![] } else { vec![b("SWEEPTIMEOUT")] })
+            }
+            b"SUBCMD" | b"DRAIN" | b"SUBRAW" => {
+                // [SUBCMD c t request]: send the request and an ECHO marker in ONE write (so the server sees one
+                // batch) and collect every frame that arrives on c before the marker's reply: pushed messages
+                // not read yet, frames pushed by this very request, its confirmations / reply.
+                // [DRAIN c t]: the marker alone.  Output: [closed; frames...].
+                // (The connection must not be inside MULTI: the marker would be queued.)
+                static MARK: std::sync::atomic::AtomicU64 = std::sync::atomic::AtomicU64::new(0);
+                let c = tok_int(&op[1]);
+                let mut newop = op.to_vec(); newop[2] = Tok::I(self.logical);
+                let mut nm = vec![]; let mut nargs = 0;
+                let mut wire = vec![];
+                if &name[..] == b"SUBRAW" {
+                    // [SUBRAW c t bytes]: a pipelined chunk of raw bytes instead of one request (same output as RAW,
+                    // but delimited by the marker instead of a quiet period)
+                    wire.extend_from_slice(tok_bytes(&op[3]));
+                } else if &name[..] == b"SUBCMD" {
+                    let mut pos = 3;
+                    let req = match V::dec(op, &mut pos) { Some(r) => r, None => return (op.to_vec(), vec![b("BADFRAME")]) };
+                    nm = req_name(&req); if let V::Array(l) = &req { nargs = l.len(); }
+                    req.wire(&mut wire);
+                }
+                let marker = format!("__verif_marker_{}", MARK.fetch_add(1, std::sync::atomic::Ordering::SeqCst)).into_bytes();
+                V::cmd(&[b"ECHO", &marker]).wire(&mut wire);
+                if nm == b"QUIT" { self.quit_sent.insert(c); }
+                let may_close = self.quit_sent.contains(&c);
+                let cl = match self.conns.get_mut(&c) { Some(x) => x, None => return (newop, vec![i(1)]) };
+                if !cl.send(&wire) { return (newop, vec![i(1)]); }
+                let mut frames = vec![]; let mut closed = 0; let mut odd: Option<&str> = None;
+                loop {
+                    match cl.read(3000) {
+                        Rd::Val(V::Bulk(x)) if x == marker => break,
+                        Rd::Val(v) => frames.push(v),
+                        Rd::Timeout => { odd = Some("TIMEOUT"); break; }
+                        Rd::Closed => { closed = 1; break; }
+                        Rd::Bad => { odd = Some("GARBAGE"); break; }
+                    }
+                }
+                // a connection that has sent QUIT is closed by the server at the end of the loop iteration in
+                // which it has no subscription left: a second marker is then never answered (EOF instead);
+                // if the connection lingers (closing-leak) it is
+                if may_close && closed == 0 && odd.is_none() {
+                    let m2 = format!("__verif_marker_{}", MARK.fetch_add(1, std::sync::atomic::Ordering::SeqCst)).into_bytes();
+                    let mut w2 = vec![]; V::cmd(&[b"ECHO", &m2]).wire(&mut w2);
+                    if !cl.send(&w2) { closed = 1; } else {
+                        loop { match cl.read(3000) { Rd::Val(V::Bulk(x)) if x == m2 => break, Rd::Val(v) => frames.push(v), Rd::Timeout => { odd = Some("TIMEOUT"); break; } Rd::Closed => { closed = 1; break; } Rd::Bad => { odd = Some("GARBAGE"); break; } } }
+                    }
+                }
+                if (nm == b"UNSUBSCRIBE" || nm == b"PUNSUBSCRIBE") && nargs == 1 { canon_unsub_all(&nm.to_ascii_lowercase(), &mut frames); }
+                let mut out = vec![i(closed)];
+                for f in canon_pushes(frames) { canon(f).enc(&mut out); }
+                if let Some(w) = odd { out.push(b(w)); }
+                (newop, out)
+            }
+            b"RAW" => {
+                // [RAW c t chunk...]: write the chunks 25 ms apart, then collect everything the server
+                // sends until it has been quiet for 150 ms; output = [closed?; reply frames...]
+                let c = tok_int(&op[1]);
+                let mut newop = op.to_vec(); newop[2] = Tok::I(self.logical);
+                let mut cl = match self.conns.remove(&c) { Some(x) => x, None => return (newop, vec![b("CLOSED")]) };
+                for ch in &op[3..] { let _ = cl.send(tok_bytes(ch)); std::thread::sleep(Duration::from_millis(25)); }
+                let mut frames = vec![]; let mut closed = 0; let mut bad = false;
+                // "quiet" is decided by the server, not by the clock alone: after 150 ms without a frame
+                // two round trips on the control connection guarantee that the event loop has visited this
+                // connection with everything we sent already in its socket; only if nothing arrives after
+                // that is the collection over (a loaded machine then delays the barrier, not the verdict)
+                let mut wait_ms = 150;
+                loop {
+                    match cl.read(wait_ms) {
+                        Rd::Val(v) => { frames.push(v); wait_ms = 150; }
+                        Rd::Timeout => { if wait_ms == 60 { break; } self.barrier(); wait_ms = 60; }
+                        Rd::Closed => { closed = 1; break; }
+                        Rd::Bad => { bad = true; break; }
+                    }
+                }
+                self.conns.insert(c, cl);
+                let mut out = vec![i(closed)];
+                for f in canon_pushes(frames) { canon(f).enc(&mut out); }
+                if bad { out.push(b("GARBAGE")); }
+                (newop, out)
+            }
+
+            // ---- blocking-pop histories (C13) ----
+            b"BCONN" => {
+                // connect and learn the id the server gave this connection (CLIENT ID)
+                let c = tok_int(&op[1]);
+                match Client::connect(self.srv.port) {
+                    Some(mut cl) => {
+                        let mut w = vec![]; V::cmd(&[b"CLIENT", b"ID"]).wire(&mut w); cl.send(&w);
+                        if let Rd::Val(V::Int(id)) = cl.read(3000) { self.blk.ids.insert(id, c); }
+                        self.conns.insert(c, cl); self.blk.owed.insert(c, 0);
+                        (op.to_vec(), vec![i(1)])
+                    }
+                    None => (op.to_vec(), vec![i(0)]),
+                }
+            }
+            b"BSEND" => {
+                // [BSEND c t n frame*n (oracles)]: one write of n requests, no reply awaited
+                let c = tok_int(&op[1]); let n = tok_int(&op[3]) as usize;
+                let mut pos = 4; let mut wire = vec![]; let mut oracles = vec![];
+                for _ in 0..n {
+                    let req = match V::dec(op, &mut pos) { Some(r) => r, None => return (op.to_vec(), vec![b("BADFRAME")]) };
+                    req.wire(&mut wire);
+                    oracles.push(blocking_timeout_oracle(&req));
+                }
+                self.sync_clock();
+                let mut newop = op[..pos].to_vec(); newop[2] = Tok::I(self.logical);
+                let has_finite = oracles.iter().any(|o| *o > 0);
+                for o in oracles { newop.push(Tok::I(o)); }
+                if !self.settle() { return (newop, vec![b("CLOSED")]); }
+                self.drain_all();
+                // requests written behind a blocking call run when that call is answered: if it can time out that
+                // happens between two instants of the logical clock, and if another connection has requests
+                // waiting too the server reads the two in HashMap order - such a write is skipped
+                let owed_c = *self.blk.owed.get(&c).unwrap_or(&0);
+                if owed_c == 0 { self.blk.finite.insert(c, false); }
+                let skip = owed_c > 0 && (*self.blk.finite.get(&c).unwrap_or(&false) || self.blk.owed.iter().any(|(k, v)| *k != c && *v > 1));
+                if !skip {
+                    if has_finite { self.blk.finite.insert(c, true); }
+                    let cl = match self.conns.get_mut(&c) { Some(x) => x, None => return (newop, vec![b("CLOSED")]) };
+                    let _ = cl.send(&wire);
+                    *self.blk.owed.entry(c).or_insert(0) += n as i64;
+                    if !self.settle() { return (newop, vec![b("CLOSED")]); }
+                    self.drain_all();
+                }
+                let mut out = vec![i(skip as i64)];
+                match self.blocking_dump() { Some(d) => out.extend(d), None => return (newop, vec![b("CLOSED")]) }
+                self.drift_check();
+                (newop, out)
+            }
+            b"BRECV" => {
+                let c = tok_int(&op[1]);
+                self.sync_clock();
+                let mut newop = op.to_vec(); newop[2] = Tok::I(self.logical);
+                if !self.settle() { return (newop, vec![b("CLOSED")]); }
+                self.drain_all();
+                let frames = self.blk.inbox.remove(&c).unwrap_or_default();
+                let mut out = vec![i(self.blk.eof.contains(&c) as i64)];
+                for f in frames { canon(f).enc(&mut out); }
+                if self.blk.broken.contains(&c) { out.push(b("BROKEN")); }
+                self.drift_check();
+                (newop, out)
+            }
+            b"BSLEEP" => {
+                // advance the logical clock by the grid step - or, when real time is already past that, to the
+                // next grid point not before now - and wait for it; the actual advance is recorded for the model
+                let step = tok_int(&op[1]).max(1);
+                let el = self.t0.elapsed().as_millis() as i128;
+                let mut target = self.logical + step;
+                if el > target { target = ((el + step - 1) / step) * step; }
+                let adv = target - self.logical;
+                self.logical = target;
+                let now = self.t0.elapsed();
+                let tg = Duration::from_millis(target as u64);
+                if now < tg { std::thread::sleep(tg - now); }
+                (vec![op[0].clone(), Tok::I(adv)], vec![])
+            }
+            b"BDUMP" => {
+                self.sync_clock();
+                let mut newop = op.to_vec(); if newop.len() > 1 { newop[1] = Tok::I(self.logical); }
+                if !self.settle() { return (newop, vec![b("CLOSED")]); }
+                self.drain_all();
+                let r = match self.blocking_dump() { Some(d) => (newop, d), None => (newop, vec![b("CLOSED")]) };
+                self.drift_check();
+                r
+            }
+            b"BCLOSE" => {
+                // [BCLOSE c t]
+                let c = tok_int(&op[1]);
+                self.sync_clock();
+                let mut newop = op.to_vec(); if newop.len() > 2 { newop[2] = Tok::I(self.logical); }
+                if !self.settle() { return (newop, vec![b("CLOSED")]); }
+                self.drain_all();
+                let o = *self.blk.owed.get(&c).unwrap_or(&0);
+                if o > 1 { return (newop, vec![i(1), i(o)]); }
+                // what the client had received and not yet reported goes with the close
+                let frames = self.blk.inbox.remove(&c).unwrap_or_default();
+                let mut out = vec![i(0), i(o)];
+                for f in frames { canon(f).enc(&mut out); }
+                self.conns.remove(&c);
+                std::thread::sleep(Duration::from_millis(10));
+                if !self.settle() { return (newop, vec![b("CLOSED")]); }
+                self.drain_all();
+                self.drift_check();
+                (newop, out)
+            }
+            b"BIG" => {
+                // [BIG c t key seed size count]: SET key <size-byte pattern>, then count GETs and a PING in ONE
+                // write; the client starts reading only after 60 ms and then reads everything: the replies
+                // exceed what the socket takes in one write, so the server's flush sees partial writes and a
+                // full socket.  Bulk replies are reported as (length, 32-bit checksum).
+                let c = tok_int(&op[1]);
+                let mut newop = op.to_vec(); newop[2] = Tok::I(self.logical);
+                let key = tok_bytes(&op[3]).to_vec();
+                let (seed, size, count) = (tok_int(&op[4]), tok_int(&op[5]), tok_int(&op[6]));
+                let val: Vec<u8> = (0..size).map(|k| ((k * 7 + k / 251 + seed).rem_euclid(256)) as u8).collect();
+                let cl = match self.conns.get_mut(&c) { Some(x) => x, None => return (newop, vec![b("CLOSED")]) };
+                let mut w = vec![]; V::cmd(&[b"SET", &key, &val]).wire(&mut w);
+                for _ in 0..count { V::cmd(&[b"GET", &key]).wire(&mut w); }
+                V::cmd(&[b"PING"]).wire(&mut w);
+                if !cl.send(&w) { return (newop, vec![b("CLOSED")]); }
+                std::thread::sleep(Duration::from_millis(60));
+                let mut out = vec![];
+                for _ in 0..(count + 2) {
+                    match cl.read(8000) {
+                        Rd::Val(V::Bulk(v)) => {
+                            let mut h: u64 = 5381;
+                            for x in &v { h = (h * 33 + (*x as u64)) & 0xFFFF_FFFF; }
+                            out.push(i(3)); out.push(i(v.len() as i128)); out.push(i(h as i128));
+                        }
+                        Rd::Val(v) => canon(v).enc(&mut out),
+                        Rd::Timeout => { out.push(b("TIMEOUT")); break; }
+                        Rd::Closed => { out.push(b("CLOSED")); break; }
+                        Rd::Bad => { out.push(b("GARBAGE")); break; }
+                    }
+                }
+                (newop, out)
+            }
             _ => (op.to_vec(), vec![b("BADOP")]),
         }
     }
-    pub fn finish(mut self) -> bool { let alive = self.srv.alive(); self.conns.clear(); self.srv.stop(false); alive }
+
+    /// blocking-pop histories: timeouts are 300/900 ms against a 600 ms grid of the logical clock, so an
+    /// operation may run up to 250 ms behind the logical instant it belongs to.  An operation that would start
+    /// more than 100 ms behind moves the logical clock to the next grid point first (and waits for it): the
+    /// time it records in the op is what the model's clock follows.
+    fn sync_clock(&mut self) {
+        const GRID: i128 = 600;
+        let el = self.t0.elapsed().as_millis() as i128;
+        if el - self.logical > 100 {
+            let target = ((el + GRID - 1) / GRID) * GRID;
+            self.logical = target;
+            let now = self.t0.elapsed(); let tg = Duration::from_millis(target as u64);
+            if now < tg { std::thread::sleep(tg - now); }
+        }
+    }
+    fn drift_check(&mut self) {
+        let el = self.t0.elapsed().as_millis() as i128;
+        if el - self.logical > 250 { self.blk.drift = true; }
+    }
+    fn ctl(&mut self) -> Option<&mut Client> {
+        if !self.conns.contains_key(&-1) { if let Some(cl) = Client::connect(self.srv.port) { self.conns.insert(-1, cl); } }
+        self.conns.get_mut(&-1)
+    }
+    fn ctl_int(&mut self, args: &[&[u8]]) -> Option<i64> {
+        let cl = self.ctl()?;
+        let mut w = vec![]; V::cmd(args).wire(&mut w); if !cl.send(&w) { return None; }
+        match cl.read(2000) { Rd::Val(V::Int(n)) => Some(n), _ => None }
+    }
+    /// wait until the event loop has gone through 5 more full iterations (VERIF ITER): everything the
+    /// requests written so far cause - replies, wake-ups, deliveries, reads of unblocked connections - is done
+    pub fn settle(&mut self) -> bool {
+        let n0 = match self.ctl_int(&[b"VERIF", b"ITER"]) { Some(n) => n, None => { self.blk.ctl_dead = true; return false } };
+        let t0 = Instant::now();
+        loop {
+            match self.ctl_int(&[b"VERIF", b"ITER"]) { Some(n) if n >= n0 + 6 => return true, Some(_) => {}, None => return false }
+            if t0.elapsed() > Duration::from_secs(3) { return false; }
+        }
+    }
+    /// move every frame that has arrived on a client connection into its inbox
+    pub fn drain_all(&mut self) {
+        let keys: Vec<i128> = self.conns.keys().cloned().filter(|k| *k >= 0 && self.blk.owed.contains_key(k)).collect();
+        for k in keys {
+            let cl = self.conns.get_mut(&k).unwrap();
+            let (frames, eof, bad) = cl.poll();
+            *self.blk.owed.entry(k).or_insert(0) -= frames.len() as i64;
+            self.blk.inbox.entry(k).or_default().extend(frames);
+            if eof { self.blk.eof.insert(k); }
+            if bad { self.blk.broken.insert(k); }
+        }
+    }
+    /// VERIF BLOCKING as tokens: wake-queue length, then per (db, key): db, key, number of waiters, their
+    /// connections (numbered as in the history; 0 = the id used inside EXEC)
+    pub fn blocking_dump(&mut self) -> Option<Vec<Tok>> {
+        let ids = self.blk.ids.clone();
+        let cl = self.ctl()?;
+        let mut w = vec![]; V::cmd(&[b"VERIF", b"BLOCKING"]).wire(&mut w); if !cl.send(&w) { return None; }
+        match cl.read(2000) {
+            Rd::Val(V::Array(l)) => {
+                let mut out = vec![];
+                for (k, x) in l.iter().enumerate() {
+                    match x {
+                        V::Int(n) if k == 0 => out.push(i(*n)),
+                        V::Array(r) if r.len() >= 2 => {
+                            if let (V::Int(db), V::Bulk(key)) = (&r[0], &r[1]) {
+                                out.push(i(*db)); out.push(bv(key)); out.push(i((r.len() - 2) as i64));
+                                for idv in &r[2..] { if let V::Int(id) = idv { out.push(Tok::I(if *id == 0 { 0 } else { *ids.get(id).unwrap_or(&(-(*id as i128))) })); } }
+                            }
+                        }
+                        _ => out.push(b("BADDUMP")),
+                    }
+                }
+                Some(out)
+            }
+            _ => None,
+        }
+    }
+    pub fn finish(mut self) -> bool {
+        // the control connection of a blocking-pop history went dead: give a server whose event loop has ended
+        // the time to finish exiting before its liveness is sampled
+        if self.blk.ctl_dead { let t0 = Instant::now(); while self.srv.alive() && t0.elapsed() < Duration::from_secs(4) { std::thread::sleep(Duration::from_millis(20)); } }
+        let alive = self.srv.alive(); self.conns.clear(); self.srv.stop(false); alive }
+    /// two request/reply round trips on the private control connection (authenticated when needed)
+    pub fn barrier(&mut self) {
+        if !self.conns.contains_key(&-1) { if let Some(cl) = Client::connect(self.srv.port) { self.conns.insert(-1, cl); } }
+        let pw = self.password.clone();
+        if let Some(cl) = self.conns.get_mut(&-1) {
+            let mut ask = |cl: &mut Client, args: &[&[u8]]| { let mut w = vec![]; V::cmd(args).wire(&mut w); cl.send(&w); let _ = cl.read(8000); };
+            if let Some(p) = &pw { if !self.ctl_authed { ask(cl, &[b"AUTH", p.as_bytes()]); self.ctl_authed = true; } }
+            ask(cl, &[b"PING"]); ask(cl, &[b"PING"]);
+        }
+    }
 }
 
-/// run a whole case on a fresh server
+/// run a whole case on a fresh server; a case that hit a harness-side timeout (reply or sweeper wait
+/// not seen in time: machine overload, not a property of the server) is re-run once
 pub fn run_case(c: &Case, o: &SrvOpts) -> Case {
-    let mut r = Runner::new(o);
+    let r = run_case_once(c, o);
+    let infra = r.outs.iter().any(|out| out.len() == 1 && matches!(&out[0], Tok::B(w) if w == b"TIMEOUT" || w == b"SWEEPTIMEOUT" || w == b"BADREPLY"));
+    if infra { run_case_once(c, o) } else { r }
+}
+pub fn run_case_once(c: &Case, o: &SrvOpts) -> Case {
+    // an initial [SERVER password] op configures the server of this case
+    let mut opts = SrvOpts { password: o.password.clone(), aof: o.aof, dir: o.dir.clone(), keep_dir: o.keep_dir };
+    let mut skip = 0;
     let mut out = Case { id: c.id.clone(), ops: vec![], outs: vec![] };
-    for op in &c.ops { let (o2, res) = r.op(op); out.ops.push(o2); out.outs.push(res); }
-    let drift = r.drift_bad;
+    if let Some(first) = c.ops.first() {
+        if matches!(first.first(), Some(Tok::B(n)) if n == b"SERVER") {
+            let pw = tok_bytes(&first[1]).to_vec();
+            if !pw.is_empty() { opts.password = Some(String::from_utf8_lossy(&pw).to_string()); }
+            out.ops.push(first.clone()); out.outs.push(vec![]);
+            skip = 1;
+        }
+    }
+    let mut r = Runner::new(&opts);
+    for op in &c.ops[skip..] { let (o2, res) = r.op(op); out.ops.push(o2); out.outs.push(res); }
+    let drift = (r.drift_bad && c.ops.iter().any(|o| matches!(o.first(), Some(Tok::B(n)) if n == b"SLEEP"))) || r.blk.drift;
     let alive = r.finish();
     if !alive { out.ops.push(vec![b("ALIVE")]); out.outs.push(vec![i(0)]); }
     if drift { out.id = format!("{}-DISCARD", out.id); }
     out
+}
+
+/// the timeout argument of BLPOP/BRPOP as the server reads it (f64 text is an oracle for the model):
+/// -2 not a blocking pop, -1 refused, 0 forever, else milliseconds (at least 1)
+pub fn blocking_timeout_oracle(req: &V) -> i128 {
+    let nm = req_name(req);
+    if nm != b"BLPOP" && nm != b"BRPOP" { return -2; }
+    let l = match req { V::Array(l) => l, _ => return -2 };
+    match l.last() {
+        Some(V::Bulk(a)) if l.len() >= 3 => {
+            match String::from_utf8_lossy(a).parse::<f64>() {
+                Ok(t) if t < 0.0 => -1,
+                Ok(t) if t == 0.0 => 0,
+                Ok(t) if !t.is_finite() || t > 1.0e9 => -1,
+                Ok(t) => std::cmp::max(1, Duration::from_secs_f64(t).as_millis() as i128),
+                Err(_) => -1,
+            }
+        }
+        _ => -2,
+    }
 }
 
 // ---- helpers for generators ----
@@ -170,3 +656,40 @@ pub fn cmd_op(conn: i64, args: &[&[u8]]) -> Vec<Tok> {
 pub fn cmd_frame_op(conn: i64, req: &V) -> Vec<Tok> { let mut o = vec![b("CMD"), i(conn), i(0)]; req.enc(&mut o); o }
 pub fn conn_op(conn: i64) -> Vec<Tok> { vec![b("CONN"), i(conn)] }
 pub fn sleep_op(ms: i64) -> Vec<Tok> { vec![b("SLEEP"), i(ms)] }
+pub fn raw_op(conn: i64, chunks: &[Vec<u8>]) -> Vec<Tok> { let mut o = vec![b("RAW"), i(conn), i(0)]; for c in chunks { o.push(bv(c)); } o }
+pub fn sweep_op() -> Vec<Tok> { vec![b("SWEEP"), i(0)] }
+pub fn sweep_gate_op() -> Vec<Tok> { vec![b("SWEEP_GATE"), i(0)] }
+pub fn sweep_release_op() -> Vec<Tok> { vec![b("SWEEP_RELEASE"), i(0)] }
+pub fn bconn_op(conn: i64) -> Vec<Tok> { vec![b("BCONN"), i(conn)] }
+pub fn bsend_op(conn: i64, reqs: &[V]) -> Vec<Tok> { let mut o = vec![b("BSEND"), i(conn), i(0), i(reqs.len() as i64)]; for r in reqs { r.enc(&mut o); } o }
+pub fn brecv_op(conn: i64) -> Vec<Tok> { vec![b("BRECV"), i(conn), i(0)] }
+pub fn bsleep_op(ms: i64) -> Vec<Tok> { vec![b("BSLEEP"), i(ms)] }
+pub fn bclose_op(conn: i64) -> Vec<Tok> { vec![b("BCLOSE"), i(conn), i(0)] }
+pub fn subcmd_op(conn: i64, args: &[&[u8]]) -> Vec<Tok> { let mut o = vec![b("SUBCMD"), i(conn), i(0)]; V::cmd(args).enc(&mut o); o }
+pub fn subcmd_frame_op(conn: i64, req: &V) -> Vec<Tok> { let mut o = vec![b("SUBCMD"), i(conn), i(0)]; req.enc(&mut o); o }
+pub fn subraw_op(conn: i64, bytes: &[u8]) -> Vec<Tok> { vec![b("SUBRAW"), i(conn), i(0), bv(bytes)] }
+pub fn drain_op(conn: i64) -> Vec<Tok> { vec![b("DRAIN"), i(conn), i(0)] }
+pub fn close_op(conn: i64) -> Vec<Tok> { vec![b("CLOSE"), i(conn)] }
+pub fn server_op(password: &[u8]) -> Vec<Tok> { vec![b("SERVER"), bv(password)] }
+
+/// every command name the server dispatches, read from /repo's current source
+pub fn dispatch_names() -> Vec<String> {
+    let repo = std::env::var("VERIF_REPO").unwrap_or("/repo".to_string());
+    let src = std::fs::read_to_string(format!("{}/src/network/server.rs", repo)).unwrap_or_default();
+    let mut names: Vec<String> = vec![];
+    let bytes = src.as_bytes();
+    let mut p = 0;
+    while let Some(q) = src[p..].find('"') {
+        let st = p + q + 1;
+        if let Some(e) = src[st..].find('"') {
+            let w = &src[st..st + e];
+            let after = src[st + e + 1..].trim_start();
+            if w.len() >= 3 && w.chars().all(|c| c.is_ascii_uppercase()) && (after.starts_with("=>") || after.starts_with('|'))
+                && !names.contains(&w.to_string()) { names.push(w.to_string()); }
+            p = st + e + 1;
+        } else { break; }
+    }
+    let _ = bytes;
+    names.retain(|n| n != "VERIF");
+    names
+}
